@@ -88,6 +88,14 @@ def run(model: Model, rep: Report) -> None:
     gw2 = model.func(F + "get_widths2")
     s2 = "".join(unparse(gw2.node).split())
     r4.check("foriinrange(cast(int,char1),cast(int,char2)+1):widths[i]=(w,(vx,vy))" in s2 and "fori,(w,vx,vy)inenumerate(choplist(3,v)):widths[cast(int,char1)+i]=(w,(vx,vy))" in s2.replace("for(i,(w,vx,vy))in", "fori,(w,vx,vy)in"), site(gw2), gw2.qualname, "W2: ranges inclusive; array form takes (w, vx, vy) triples", why="changed")
+    # ---------------------------------------------------------------- R6
+    r6 = rep.rule("C07-R6", "GUARD", "advances follow W/DW: a width found in W (also 0) wins over the default", 2)
+    cw = model.func(F + "PDFFont.char_width")
+    tests = [n for n in walk_no_nested(cw.node) if isinstance(n, ast.If) and "cid_width" in unparse(n.test)]
+    okt = bool(tests) and all(unparse(t.test).replace(" ", "") == "cid_widthisnotNone" for t in tests)
+    r6.check(okt, site(cw), cw.qualname, "a looked-up width is used whenever it is present (`is not None`), including an explicit 0", why=f"tests {[unparse(t.test) for t in tests]}: a zero width in W falls through to DW")
+    s6 = "".join(unparse(cw.node).split())
+    r6.check("cid_width=safe_float(self.widths.get(cid))" in s6 and "returnself.default_width*self.hscale" in s6, site(cw), cw.qualname, "width of a CID = W entry if present, else DW, times the glyph-space scale", why="changed")
     # ---------------------------------------------------------------- R5
     r5 = rep.rule("C07-R5", "BIND", "vertical metrics: DW2 = [vy w]; W2 entries become (w, (vx, vy)); writing mode comes from the CMap", 3)
     ci = model.func(F + "PDFCIDFont.__init__")
